@@ -718,6 +718,16 @@ func predCLI(c Case) (r Result) {
 		}
 	}
 	libNorm, _ := normalise(lib.Val)
+	if _, st, e := ref.ParseText(expr); (e != nil || st != ref.LexOK) && unorderedExpr(expr) {
+		// no reference value (the library takes this text for a reason listed as an open finding of
+		// C04) and the expression lists object members, whose order two processes may choose
+		// differently: compare with the elements of every array sorted
+		if sortedCanon(outVal) != sortedCanon(libNorm) {
+			r.Violation = "jpgo prints a different value than the library's Search returns"
+			r.Expected, r.Got = show(lib.Val), stdout.String()
+		}
+		return
+	}
 	if !sameModuloOrder(outVal, libNorm, want) {
 		r.Violation = "jpgo prints a different value than the library's Search returns"
 		r.Expected, r.Got = show(lib.Val), stdout.String()
